@@ -501,7 +501,10 @@ class ASTPrinter:
         if desc is None or not self.include_descriptions:
             return formatted
 
-        desc_str = _block_string(desc.value, self.indent, True)
+        if desc.block:
+            desc_str = _block_string(desc.value, self.indent, True)
+        else:
+            desc_str = json.dumps(desc.value, ensure_ascii=False)
         return _join([desc_str, formatted], "\n")
 
 
